@@ -438,8 +438,8 @@ func (h *harness) rejections(s int, r *lib.RNG) error {
 		kind := ""
 		switch r.Intn(4) {
 		case 0:
-			if isSystem(&target) && w.g.HeadState().Contracts[target] == nil {
-				// a zero written to a system contract nothing ever wrote to: the two state backends
+			if c := w.g.HeadState().Contracts[target]; isSystem(&target) && (c == nil || len(c.Storage) == 0) {
+				// a zero written to a system contract that holds no storage: the two state backends
 				// compute different roots for such a block (C01's subject), so it cannot be stored
 				// on both nodes at all; not a refusal of Store
 				continue
